@@ -56,6 +56,18 @@ pub fn classify(cell: &Cell, op: &str, errno: i32) -> Class {
     }
 }
 
+/// The socket failures `cell` survives (slot Failed, or Skipped and re-issued), per call site.
+pub fn transient_faults(cell: &Cell) -> Menu {
+    use simnet::{EADDRINUSE, EADDRNOTAVAIL, EHOSTUNREACH, EINVAL, ENETUNREACH};
+    let ok = |op: &str, errnos: &[i32]| -> Vec<i32> { errnos.iter().copied().filter(|e| matches!(classify(cell, op, *e), Class::Transient | Class::AddrInUse)).collect() };
+    Menu {
+        send_faults: ok("send_to", &[EHOSTUNREACH, ENETUNREACH, EINVAL]),
+        bind_faults: ok("bind", &[EADDRINUSE, EADDRNOTAVAIL]),
+        connect_faults: ok("connect", &[EADDRINUSE, ENETUNREACH]),
+        ..Menu::default()
+    }
+}
+
 fn menu(sched: bool) -> Menu {
     use simnet::{EACCES, EADDRINUSE, EADDRNOTAVAIL, EAGAIN, ECONNREFUSED, EHOSTUNREACH, EINVAL, EIO, ENETUNREACH};
     Menu {
